@@ -125,7 +125,10 @@ def snapshots_equal(a, b, fields=("members", "mean", "emp", "train", "comp", "lo
             if isinstance(x, np.ndarray) or isinstance(y, np.ndarray):
                 if x is None or y is None:
                     return False
-                if x.shape != y.shape or not np.array_equal(x, y, equal_nan=True):
+                if x.dtype == object or y.dtype == object:
+                    if repr(x.tolist()) != repr(y.tolist()):
+                        return False
+                elif x.shape != y.shape or not np.array_equal(x, y, equal_nan=True):
                     return False
             elif x != y and not (x is None and y is None):
                 if isinstance(x, float) and isinstance(y, float) and np.isnan(x) and np.isnan(y):
